@@ -124,6 +124,25 @@ def run(ctx):
             if len(ctx.violations) > 12:
                 return
     ctx.cov["tool_runs_ended_acceptably"] = n_ok
+    # regular files on stdin (FilePiece maps them window by window): one line longer than several windows, starting at a page-aligned and
+    # at unaligned file offsets -- the window has to grow from a start that is not the line's start
+    for off in (0, 1, 4095, 4096, 5000, 1 << 20, (1 << 20) + 77):
+        data = (b"s" * (off - 1) + b"\n" if off else b"") + b"y" * (3 * (1 << 20) + 11) + b"\nz\n"
+        pth = os.path.join(ctx.tmp, "longline.txt")
+        open(pth, "wb").write(data)
+        for tool, args, want in (("remove_invalid_utf8", [], data), ("dedupe", [], data), ("remove_long_lines", ["10"], b"".join(l_ + b"\n" for l_ in data.split(b"\n")[:-1] if len(l_) < 10))):
+            st, out, err = pvlib.run_tool([ctx.bin(tool)] + args, stdin_file=pth, env=pvlib.san_env(), timeout=40)
+            ctx.count("mapped-long-line", 1, [(tool, off)])
+            if st != 0 or out != want:
+                kind = pvlib.san_kind(err) or st
+                pvlib.report_violation(ctx, f"c20-mapped:{tool}:{off}", {"argv": [tool] + args, "stdin_is_regular_file": True,
+                    "stdin_python": f"(b's' * ({off} - 1) + b'\\n' if {off} else b'') + b'y' * (3 * (1 << 20) + 11) + b'\\nz\\n'", "status": st, "kind": str(kind),
+                    "stderr": err.decode(errors="replace")[-600:]},
+                    summary=f"{tool} {' '.join(args)} < regular file whose line of 3 MiB + 11 bytes starts at file offset {off}: ended with {kind}"
+                            + ("" if st != 0 else f", {len(out)} bytes of output instead of {len(want)}"))
+                break
+        if ctx.violations:
+            break
     # option values at the edge of their range, on an input that is valid for the tool
     warc = b"".join(b"WARC/1.0\r\nWARC-Type: response\r\nContent-Length: %d\r\n\r\n" % len(b_) + b_ + b"\r\n\r\n" for b_ in (b"ab", b"", b"x" * 5000))
     for tool, args, data in (("warc_parallel", ["-j", "0", "cat"], warc), ("warc_parallel", ["-j", "1", "cat"], warc), ("warc_parallel", ["-j", "64", "-z", "cat"], warc),
@@ -314,6 +333,12 @@ def replay(ctx, rp):
         tool = rp["argv"][0]
         st, out, err = pvlib.run_tool([ctx.bin(tool)] + ((["--model"] + paths) if tool == "truecase" else paths), b"the cat\nTHE \xff dog\n\n", env=pvlib.san_env(), timeout=12)
         print("status", st, err.decode(errors="replace")[-1500:])
+        return
+    if rp.get("stdin_is_regular_file"):
+        pth = os.path.join(ctx.tmp, "rp_longline.txt")
+        open(pth, "wb").write(eval(rp["stdin_python"]))
+        st, out, err = pvlib.run_tool([ctx.bin(rp["argv"][0])] + rp["argv"][1:], stdin_file=pth, env=pvlib.san_env(), timeout=40)
+        print("status", st, "output bytes", len(out), err.decode(errors="replace")[-600:])
         return
     if "argv" in rp:
         print("(stdin truncated in the replay file for large corpus items; corpus item:", rp.get("corpus_item"), ")")
